@@ -1,6 +1,6 @@
 (** Non-vacuity for C12: readers satisfying the hypotheses, and concrete runs of the model. *)
 From Coq Require Import NArith List Lia.
-From FF Require Import Lib.Word Gen.Consts_device_acpi_aml Aml.Stream Aml.Lex Aml.LexProofs Aml.Tree Aml.Parser Aml.ParserProofs Aml.ParserProofsTop.
+From FF Require Import Lib.Word Gen.Consts_device_acpi_aml Aml.Stream Aml.Lex Aml.LexProofs Aml.Tree Aml.TreeSpec Aml.Parser Aml.ParserProofs Aml.ParserProofsTop Aml.ParserTotalBase Aml.ParserTotalFirst.
 Import ListNotations.
 Local Open Scope N_scope.
 
@@ -52,3 +52,55 @@ Example C12_pool_has_slices :
   let '(class, t, imgs) := load [[0x08; 0x41; 0x42; 0x43; 0x44; 0x0d; 0x61; 0x62; 0x00]] in
   class = 0 /\ existsb (fun o => match o_value o with Some (VBytes 0 (mkSlice (Some 42) 2)) => true | _ => false end) (t_pool t) = true.
 Proof. vm_compute. split; reflexivity. Qed.
+
+(** ---- first pass: no panic / tree relation / fuel ---- *)
+Definition ex_image : list N := table_image [0x5b; 0x80; 0x52; 0x45; 0x47; 0x30; 0x01; 0x0b; 0x00; 0x30; 0x0a; 0x04;
+                                             0x5b; 0x81; 0x12; 0x52; 0x45; 0x47; 0x30; 0x01; 0x46; 0x4c; 0x44; 0x30; 0x08; 0x00; 0x08; 0x46; 0x4c; 0x44; 0x31; 0x08;
+                                             0x10; 0x0d; 0x5c; 0x5f; 0x53; 0x42; 0x5f; 0x08; 0x5f; 0x41; 0x44; 0x52; 0x0a; 0x05].
+
+(** the hypotheses of C12_parse_total_partial_nopanic_first_pass / _R_first_pass are satisfiable (a pool with a root scope) *)
+Example C12_first_pass_nonvacuous :
+  exists (tree : ObjectTree value) (g : ghost),
+    R tree g /\
+    (forall i o, TreeSpec.get tree i = Some o -> o_opcode o <> opFreed -> opInfo (o_infoIndex o) <> None) /\
+    glive g 0 /\
+    Forall (fun b => b < 256) ex_image /\ N.of_nat (length ex_image) + 0x10000400 <= two32 /\
+    N.of_nat (length (t_pool tree)) + 4 * N.of_nat (length ex_image) + 4 <= InvalidIndex.
+Proof.
+  destruct first_pass_hyps_example as (tree & g & HR & Hi & H0 & Hl). exists tree, g.
+  split; [exact HR|]. split; [exact Hi|]. split; [exact H0|].
+  split; [repeat constructor; vm_compute; reflexivity|]. split; [vm_compute; discriminate|].
+  assert (E : N.of_nat (length ex_image) = 82) by reflexivity. rewrite E.
+  assert (EI : InvalidIndex = 0xffffffff) by reflexivity. rewrite EI. lia.
+Qed.
+
+(** ... and so are those of the fuel theorem: the state in which ParseAML starts its first pass *)
+Example C12_first_pass_fuel_nonvacuous :
+  exists (tree : ObjectTree value) (g : ghost),
+    let s := with_scopeStack (init_state tree [] 1 ex_image) [0] in
+    R (p_tree s) g /\
+    (forall i o, TreeSpec.get (p_tree s) i = Some o -> o_opcode o <> opFreed -> opInfo (o_infoIndex o) <> None) /\
+    reader_wf (p_r s) /\ r_len (p_r s) + 0x10000400 <= two32 /\ r_offset (p_r s) <= r_len (p_r s) /\
+    p_allBlocks s = false /\ Forall (glive g) (p_scopeStack s) /\ p_scopeStack s <> [] /\
+    N.of_nat (length (t_pool (p_tree s))) + 4 * (r_len (p_r s) - r_offset (p_r s)) + 4 <= InvalidIndex.
+Proof.
+  destruct first_pass_hyps_example as (tree & g & HR & Hi & H0 & Hl). exists tree, g.
+  assert (Him : image_small ex_image) by (split; [repeat constructor; vm_compute; reflexivity|vm_compute; discriminate]).
+  assert (Hcap : N.of_nat (length (t_pool tree)) + 4 * N.of_nat (length ex_image) + 4 <= InvalidIndex).
+  { assert (E : N.of_nat (length ex_image) = 82) by reflexivity. rewrite E.
+    assert (EI : InvalidIndex = 0xffffffff) by reflexivity. rewrite EI. lia. }
+  destruct (init_FI tree g [] 1 ex_image HR Hi H0 Him Hcap) as ([F1 F2 (F3 & F4 & F5) F6 F7] & Hroom).
+  cbv zeta. repeat (split; [assumption|]). split; [discriminate|exact Hroom].
+Qed.
+
+(** concrete run: the first pass of the example table over the default scopes returns parseResultOk and leaves
+    13 objects in the pool (5 default scopes + OpRegion with 4 args ... ) *)
+Example C12_first_pass_runs :
+  match CreateDefaultScopes (@NewObjectTree value) 0 with
+  | Ok t0 => match (scopeEnter 0 ;;; parseObjectList 400) (init_state t0 [] 1 ex_image) with
+             | Ok (ROk, s') => Nat.ltb 10 (length (t_pool (p_tree s'))) = true
+             | _ => False
+             end
+  | _ => False
+  end.
+Proof. vm_compute. reflexivity. Qed.
